@@ -113,8 +113,8 @@ def make_event(k, p):
         part.interaction.inelasticity = 0.25
         part.interaction.em_frac = 0.5 if (k + j) % 2 else 0.0
         part.interaction.had_frac = 0.25
-        part.survival_weight = 0.5
-        part.interaction_weight = 0.125 * (j + 1)
+        part.survival_weight = 0.0 if (k + j) % 3 == 0 else 0.5              # some weights are exactly zero
+        part.interaction_weight = 0.0 if (k + 2 * j) % 4 == 1 else 0.125 * (j + 1)
         parts.append(part)
     return pyrex.Event(parts)
 
@@ -426,6 +426,9 @@ class H5Driver:
         if last['res'] == 'ok' and raised is not None:
             raise Divergence('add #%d' % k, 'accepted', 'raised %r' % raised)
 
+    def reader_paths(self, src, exp):
+        return _reader_paths(self, src, exp)
+
     # ---------------------------------------------------------------- verify
     def verify(self, st):
         """read the file back (through a flushed copy while the writer is open)"""
@@ -440,6 +443,7 @@ class H5Driver:
         else:
             src = self.path
         self.paths_checked += check_file(src, exp, self.level, self.rng)
+        self.reader_paths(src, exp)
         # the file's throw counter is the sum over all adds that reached the particle stage, over all sessions
         want_thrown = int(st['F']['thrown'])
         if want_thrown > 0:
@@ -453,6 +457,58 @@ class H5Driver:
                                  want_thrown, got_thrown)
         if self.generator and not is_open:
             self.gen_runs += check_generator(src, exp, 'full' if self.level == 'full' else 'sample')
+
+
+def _reader_paths(self, src, exp):
+    """access patterns beyond one pass: two iterators of one reader alive in different chunks; one reader object kept over the
+    whole history and re-opened after every step; the reader-level waveform accessor at the end of an event's rows"""
+    n = len(exp)
+    if n == 0 or all(e['particles'] is None for e in exp):
+        return              # no particle table in the file: outside the property's domain (as in check_file)
+    if n >= 2:
+        f = open_reader(src, slice_range=1)
+        try:
+            a, b = iter(f), iter(f)
+            ea0 = next(a)
+            eb0 = next(b)
+            ea1 = next(a)                       # `a` moves on to the next chunk while `b` still stands on event 0
+            compare_event('two iterators of one reader (slice_range=1): event 0 through the second iterator', exp[0], observe_event(eb0))
+            compare_event('two iterators of one reader (slice_range=1): event 1 through the first iterator', exp[1], observe_event(ea1))
+            eb1 = next(b)
+            compare_event('two iterators of one reader (slice_range=1): event 1 through the second iterator', exp[1], observe_event(eb1))
+        finally:
+            f.close()
+    # the same reader object over the whole history (a file that grows between its sessions)
+    if getattr(self, 'long_reader', None) is None or self.long_reader_path != src:
+        self.long_reader = File(src, 'r')
+        self.long_reader_path = src
+    lr = self.long_reader
+    lr.open()
+    try:
+        if len(lr) != n:
+            raise Divergence('len() of a reader object re-opened after the file changed', n, len(lr))
+        for i in sorted({-1, -n, 0, n - 1}):
+            compare_event('reader object kept across sessions, file[%d] of %d events' % (i, n), exp[i], observe_event(lr[i]))
+    finally:
+        lr.close()
+    # reader-level accessor: waveform rows of event i, type t; t = number of waveform rows of the event is past its end
+    f = open_reader(src)
+    try:
+        for i in range(n):
+            wf = exp[i]['waveforms']
+            if not wf:
+                continue
+            nrows = len(wf)
+            try:
+                got = f.get_waveforms(event_id=i, waveform_type=nrows)
+            except Exception:
+                continue
+            got = np.asarray(got)
+            if got.size and np.any(np.nan_to_num(got.astype(float)) != 0):
+                raise Divergence('reader.get_waveforms(event_id=%d, waveform_type=%d) of an event with %d waveform rows' % (i, nrows, nrows),
+                                 'an error or nothing', 'data of shape %s' % (got.shape,))
+    finally:
+        f.close()
 
 
 def open_reader(path, **kw):
